@@ -1,4 +1,6 @@
 import GeomV.C10.LemmasD
+import GeomV.C10.LemmasTD
+import GeomV.C10.Proofs
 /-!
 # C10 — `datumTransform` leaves the shared datums as it found them (frame), on every way out
 
@@ -37,6 +39,39 @@ theorem C10_datum_history (o : DOps F R Err) (h : DHeap F R) (l : List (Nat × N
   intro c _
   rw [datumTransformM_result]
 
+/-! ### the transformer state machine WITH the datum writes in the model -/
+section Composed
+variable {P Err Err0 : Type} [FOps F]
+
+/-- **C10_pure_with_datums** (history independence with BOTH kinds of shared state in the model: the `*SR`
+records the constructors write on every call, and the `*datum` objects `datumTransform` writes and restores).
+For every projection internals satisfying `CoreOK` (a theorem for the transcribed constructors), every
+behaviour of the datum callees, every assignment of datum objects to SRs (`dmap`, sharing allowed), every
+initial SR heap and datum heap, every pool of transformers and every history of calls on the machine
+`runHistS` that threads the datum heap through `datumTransform`: the datum heap ends exactly as it began,
+and the i-th answer is the answer of a single call of that transformer on the initial heaps (a freshly built
+transformer).  A panic of a datum callee is carried as the failure value `conv (.panic f)` of the call. -/
+theorem C10_pure_with_datums (c : Core F P Err) (hc : CoreOK c) (o : DOps F R Err0) (dmap : Nat → Nat)
+    (conv : Fail Err0 → Err) (wgs : Nat) (h0 : Heap F P) (hD : DHeap F R) (pool : Nat → Tr)
+    (hist : List (Nat × F × F)) :
+    (runHistS c (datumStep o dmap conv) wgs { heap := h0, pool := pool } hD hist).2.1 = hD ∧
+    Spec.HistoryIndependent (runHistS c (datumStep o dmap conv) wgs { heap := h0, pool := pool } hD hist).2.2
+      (hist.map fun q => (stepS c (datumStep o dmap conv) wgs h0 hD (pool q.1) q.2.1 q.2.2).2.2.2) := by
+  have hf := datumStep_frame (Err := Err) o dmap conv
+  rw [runHistS_eq c _ hf]
+  refine ⟨rfl, ?_⟩
+  have hc' : CoreOK (coreAt c (datumStep o dmap conv) hD) := hc
+  have := C10_pure (coreAt c (datumStep o dmap conv) hD) hc' wgs h0 pool hist
+  simpa only [stepS_eq c _ hf] using this
+
+/-- **C10_step_datums_frame**: one call of a transformer leaves the datum heap exactly as it found it. -/
+theorem C10_step_datums_frame (c : Core F P Err) (o : DOps F R Err0) (dmap : Nat → Nat)
+    (conv : Fail Err0 → Err) (wgs : Nat) (h : Heap F P) (hD : DHeap F R) (tr : Tr) (x y : F) :
+    (stepS c (datumStep o dmap conv) wgs h hD tr x y).2.1 = hD := by
+  rw [stepS_eq c _ (datumStep_frame (Err := Err) o dmap conv)]
+
+end Composed
+
 /-! ### the snapshot (before fix 855dde6) did not have the frame property -/
 namespace DatumWitness
 
@@ -66,6 +101,16 @@ example :
     (datumTransformM ops heap 0 1 (5, 6, 7)).2 = .error (.err "gridshift not supported") ∧
     (((datumTransformM ops heap 0 1 (5, 6, 7)).1 1).a, ((datumTransformM ops heap 0 1 (5, 6, 7)).1 1).es) = (30, 40) :=
   ⟨rfl, rfl⟩
+
+/-- non-vacuity of `C10_pure_with_datums`: a hop history on the composed machine; SR `i` points to datum
+`min i 1` (SRs 1 and 2 share the grid-shift datum, so the first leg, to the WGS84 cell 2, fails after having
+written the WGS84 constants into it) — both calls give the same failure and the datum heap is as before -/
+example :
+    (runHistS Witness.core (datumStep ops (fun i => if i = 0 then 0 else 1)
+        (fun f => match f with | .err e => e | .panic _ => "panic")) 2
+      { heap := Witness.heap, pool := Witness.pool } heap [(0, 5, 7), (0, 5, 7)]).2.2 =
+      [.err "gridshift not supported", .err "gridshift not supported"] := by
+  rfl
 
 end DatumWitness
 end GeomV.C10
